@@ -654,6 +654,75 @@ theorem copy_attr_on_field_refused_next_to_clone (c : Ctx) (mt : TraitMeta)
     ¬ IsOk (markerHandler c mt .copy .clone "::core::marker::Copy" "::core::clone::Clone" true) :=
   marker_attr_on_field_refused c mt .copy .clone _ _ true (by simp) vpre vpost v hv fpre fpost f hf apre apost a hfa pre post m ha hms ht
 
+/-! ### `bound` (or anything else) in an attribute on a variant, for the traits that take nothing there -/
+
+/-- A meta is *empty* when it is a list form with no parameter at all (`Trait()`): the only form the
+    flag-less, bound-less builder lets through. -/
+def MetaForm.isEmptyList : MetaForm → Bool
+  | .list (some []) _ _ => true
+  | _ => false
+
+theorem findSpec_single {σ : Type} (s : PSpec σ) (n : String) : findSpec [s] n = none ∨ findSpec [s] n = some s := by
+  unfold findSpec
+  simp only [List.find?]
+  cases s.names.contains n <;> simp
+
+theorem boundType_all_off_refused (m : TraitMeta) (h : m.form.isEmptyList = false) :
+    ¬ IsOk (boundTypeFromMeta { flag := false, unsafe_ := false, bound := false } m) := by
+  unfold boundTypeFromMeta
+  split
+  · simp only [Bool.false_eq_true, if_false]; exact not_ok_identOrPanic m _
+  · exact not_ok_identOrPanic m _
+  · rename_i plain uns typed hform
+    simp only [Bool.false_eq_true, if_false]
+    split
+    · exact not_ok_diag _
+    · rename_i ps
+      cases ps with
+      | nil => rw [hform] at h; simp [MetaForm.isEmptyList] at h
+      | cons p ps =>
+        apply bad_parameter_refused m _ [] ps p
+        split
+        · trivial
+        · rename_i n _
+          rcases findSpec_single (boundSpec false fun b (st : BoundTypeAttr) => { st with bound := b }) n with h1 | h1
+          · rw [h1]; trivial
+          · rw [h1]; rfl
+
+/-- **An attribute of the handler's own trait on a variant** — `bound(..)` included — is refused by every handler
+    that reads variant attributes through `variantNoAttr` (Clone, Copy, PartialEq, Eq, Hash, PartialOrd, Ord),
+    in whatever attribute and at whatever place in its list it stands. -/
+theorem own_attr_on_variant_refused (c : Ctx) (mine : TraitId → Bool) (v : Variant)
+    (apre apost : List Attribute) (a : Attribute) (hva : v.attrs = apre ++ a :: apost)
+    (pre post : List TraitMeta) (m : TraitMeta) (t : TraitId)
+    (ha : (a.isEduce && a.isList) = true) (hms : a.metas = some (pre ++ m :: post))
+    (ht : traitOf c.F m = some t) (hm : mine t = true) (hne : m.form.isEmptyList = false) :
+    ¬ IsOk (variantNoAttr c mine v) := by
+  unfold variantNoAttr
+  apply bind_not_ok_left
+  rw [hva]
+  exact fromAttrs_misplaced_refused c.F c.traits mine _ {} apre apost a pre post m t ha hms ht hm (boundType_all_off_refused m hne)
+
+/-- …and so by the marker handler, for `Copy` also next to `Clone` (second half of the defect repaired in 901f6d7). -/
+theorem marker_attr_on_variant_refused (c : Ctx) (mt : TraitMeta) (me p : TraitId) (b s : String) (w : Bool)
+    (hw : (c.traits p && !w) = false) (hk : c.d.kind = .enum)
+    (vpre vpost : List Variant) (v : Variant) (hv : c.d.variants = vpre ++ v :: vpost)
+    (apre apost : List Attribute) (a : Attribute) (hva : v.attrs = apre ++ a :: apost)
+    (pre post : List TraitMeta) (m : TraitMeta)
+    (ha : (a.isEduce && a.isList) = true) (hms : a.metas = some (pre ++ m :: post))
+    (ht : traitOf c.F m = some me) (hne : m.form.isEmptyList = false) :
+    ¬ IsOk (markerHandler c mt me p b s w) := by
+  unfold markerHandler
+  apply bind_not_ok_right
+  intro ta
+  simp only [hw, Bool.false_eq_true, if_false]
+  apply bind_not_ok_left
+  rw [hv]
+  apply mapRes_not_ok
+  simp only [hk, beq_self_eq_true, if_true]
+  apply bind_not_ok_left
+  exact own_attr_on_variant_refused c (· == me) v apre apost a hva pre post m me ha hms ht (by simp) hne
+
 /-- Non-vacuity: `#[educe(Clone, Copy)] struct S(#[educe(Copy)] u8);` meets the hypotheses (with `Clone` educed). -/
 example :
     let m : TraitMeta := { ident := some "Copy", pathStr := "Copy", raw := "Copy", form := .path }
@@ -663,5 +732,16 @@ example :
     let c : Ctx := { F := TraitId.all, traits := fun t => t == .clone || t == .copy, d := { name := "S", kind := .struct, variants := [v] } }
     c.traits .clone = true ∧ c.d.variants = [] ++ v :: [] ∧ v.fields = [] ++ f :: [] ∧ f.attrs = [] ++ a :: [] ∧
       (a.isEduce && a.isList) = true ∧ a.metas = some ([] ++ m :: []) ∧ traitOf c.F m = some .copy := by decide
+
+/-- Non-vacuity: `#[educe(Clone, Copy)] enum E { #[educe(Copy(bound(*)))] A(u8) }` meets the hypotheses of
+    `marker_attr_on_variant_refused` (with `Clone` educed). -/
+example :
+    let bp : Param := { ident := some "bound", pathStr := "bound", form := .list { text := "*" } }
+    let m : TraitMeta := { ident := some "Copy", pathStr := "Copy", raw := "Copy(bound(*))", form := .list (some [bp]) none none }
+    let a : Attribute := { isEduce := true, isList := true, metas := some [m] }
+    let v : Variant := { name := "A", shape := .tuple, fields := [{ ty := "u8" }], attrs := [a] }
+    let c : Ctx := { F := TraitId.all, traits := fun t => t == .clone || t == .copy, d := { name := "E", kind := .enum, variants := [v] } }
+    c.traits .clone = true ∧ c.d.kind = .enum ∧ c.d.variants = [] ++ v :: [] ∧ v.attrs = [] ++ a :: [] ∧
+      (a.isEduce && a.isList) = true ∧ a.metas = some ([] ++ m :: []) ∧ traitOf c.F m = some .copy ∧ m.form.isEmptyList = false := by decide
 
 end Educe.Attr
